@@ -1004,7 +1004,8 @@ impl<'a> Ctx<'a> {
                     let names = if fmt == "human" { &text_named } else { &structured_named };
                     let named = names.contains(&abs(&f.file)) || f.alt.iter().any(|a| names.contains(&abs(a)));
                     if !named {
-                        let others_same_stage = group.iter().filter(|g| g.stage == f.stage && g.file != f.file).count();
+                        // other faults of the same stage whose diagnostic is (or may be: `alt`) located in another file
+                        let others_same_stage = group.iter().filter(|g| g.stage == f.stage && !std::ptr::eq::<Fault>(**g, *f) && (g.file != f.file || !g.alt.is_empty())).count();
                         let sig = if f.stage != first_stage {
                             format!("unnamed:{}:masked-by:{}", f.stage, first_stage)
                         } else if (f.stage == "schema-ext" || f.stage == "op-import") && others_same_stage > 0 {
@@ -1041,9 +1042,52 @@ fn pad_fault(text: &str, pad: &str) -> String {
     format!("{lead}{pad}{}{trail}", body.replace('\n', " "))
 }
 
-fn schema_fault(rng: &mut Rng, n: usize, own_types: &[(String, nvh::gm::TypeKind)]) -> (String, String, String) {
+/// `own_types` = the types defined in the file the fault goes into, `other_types` = (file index, name, kind) of the
+/// types defined in the OTHER schema files.  Returns (kind, stage, text appended to the file, index of another file a
+/// diagnostic of this fault may be located in).
+fn schema_fault(rng: &mut Rng, n: usize, own_types: &[(String, nvh::gm::TypeKind)], other_types: &[(usize, String, nvh::gm::TypeKind)]) -> (String, String, String, Option<usize>) {
+    use nvh::gm::TypeKind as K;
+    let def_of = |t: &str, k: &K| match k {
+        K::Scalar => format!("scalar {t}"),
+        K::Object => format!("type {t} {{ again: Int }}"),
+        K::Interface => format!("interface {t} {{ again: Int }}"),
+        K::Union => format!("union {t} = Query"),
+        K::Enum => format!("enum {t} {{ AGAIN }}"),
+        K::Input => format!("input {t} {{ again: Int }}"),
+    };
+    match rng.below(11) {
+        // faults that exist only once the extensions are merged into their originals (possibly of another file)
+        8 | 9 => {
+            let objs: Vec<(String, K)> = own_types.iter().cloned().chain(other_types.iter().map(|(_, t, k)| (t.clone(), *k))).filter(|(_, k)| matches!(k, K::Object | K::Interface)).collect();
+            if objs.is_empty() {
+                return ("orphan-extension".into(), "schema-ext".into(), format!("\nextend union Nope{n} = Query\n"), None);
+            }
+            let (t, k) = &objs[rng.below(objs.len())];
+            let kw = if *k == K::Interface { "interface" } else { "type" };
+            if rng.coin() {
+                ("ext-unknown-type".into(), "schema-check".into(), format!("\nextend {kw} {t} {{ extra{n}: NopeType{n} }}\n"), None)
+            } else {
+                ("ext-unknown-directive".into(), "schema-check".into(), format!("\nextend {kw} {t} {{\n  extra{n}: Int @nope{n}\n}}\n"), None)
+            }
+        }
+        // a second definition of a type that another schema file defines: the diagnostic is located at the FIRST
+        // definition in file order, the other one is a note
+        10 if !other_types.is_empty() => {
+            let (i, t, k) = &other_types[rng.below(other_types.len())];
+            ("duplicate-type-across-files".into(), "schema-ext".into(), format!("\n{}\n", def_of(t, k)), Some(*i))
+        }
+        x => schema_fault_single(rng, n, own_types, x),
+    }
+}
+
+fn schema_fault_single(rng: &mut Rng, n: usize, own_types: &[(String, nvh::gm::TypeKind)], choice: usize) -> (String, String, String, Option<usize>) {
+    let (a, b, c) = schema_fault_basic(rng, n, own_types, choice);
+    (a, b, c, None)
+}
+
+fn schema_fault_basic(_rng: &mut Rng, n: usize, own_types: &[(String, nvh::gm::TypeKind)], choice: usize) -> (String, String, String) {
     // (kind, stage, text appended to the file)
-    match rng.below(8) {
+    match choice {
         0 => ("syntax".into(), "parse-schema".into(), format!("\ntype Broken{n} {{ f: }}\n")),
         1 => ("syntax-eof".into(), "parse-schema".into(), format!("\ntype Broken{n} {{ f: Int\n")),
         2 => ("unknown-type".into(), "schema-check".into(), format!("\ntype Extra{n} {{ f: NopeType{n} }}\n")),
@@ -1097,7 +1141,10 @@ fn op_fault(rng: &mut Rng, n: usize, other_file: Option<&str>) -> (String, Strin
 fn gen_case(rng: &mut Rng, want_faults: usize, ctx_mode: Option<bool>) -> (Case, Vec<String>) {
     let gcfg = nvh::gen::GenCfg { hostile_text: false, max_depth: 2, ..Default::default() };
     let schema = nvh::gen::gen_schema(rng, &gcfg);
-    let items = schema.doc.items.clone();
+    // half of the schemas have some of their definitions split into `extend …` items (same merged meaning); the items
+    // are then spread over the schema files, so an extension may live in another file than its original, before or after it
+    let with_extensions = rng.coin();
+    let items = if with_extensions { nvh::gen::split_into_extensions(rng, &schema).items } else { schema.doc.items.clone() };
     let ns = (1 + rng.below(3)).min(items.len().max(1));
     let mut chunks: Vec<Vec<nvh::gm::TsItem>> = vec![vec![]; ns];
     for (i, it) in items.into_iter().enumerate() {
@@ -1140,13 +1187,14 @@ fn gen_case(rng: &mut Rng, want_faults: usize, ctx_mode: Option<bool>) -> (Case,
         let choice = rng.below(10);
         if choice < 4 {
             let i = rng.below(schema_files.len());
-            let (kind, stage, mut text) = schema_fault(rng, n, &own_types[i]);
+            let other_types: Vec<(usize, String, nvh::gm::TypeKind)> = own_types.iter().enumerate().filter(|(k, _)| *k != i).flat_map(|(k, ts)| ts.iter().map(move |(t, kind)| (k, t.clone(), *kind))).collect();
+            let (kind, stage, mut text, other) = schema_fault(rng, n, &own_types[i], &other_types);
             if rng.coin() {
                 text = pad_fault(&text, &schema_pad(n));
                 non_ascii = true;
             }
             schema_files[i].1.push_str(&text);
-            faults.push(Fault { kind, file: schema_files[i].0.clone(), stage, alt: vec![] });
+            faults.push(Fault { kind, file: schema_files[i].0.clone(), stage, alt: other.map(|k| vec![schema_files[k].0.clone()]).unwrap_or_default() });
         } else if choice < 8 {
             let j = rng.below(op_files.len());
             let other = if op_files.len() > 1 { Some(format!("o{}.graphql", (j + 1) % op_files.len())) } else { None };
@@ -1230,8 +1278,11 @@ fn gen_case(rng: &mut Rng, want_faults: usize, ctx_mode: Option<bool>) -> (Case,
         }
     }
     let _ = non_ascii;
-    // context-dependent faults across #import: every file of the cluster is valid on its own
     let mut ctx_features = vec![];
+    if with_extensions {
+        ctx_features.push("schema-definitions-split-into-extensions".to_string());
+    }
+    // context-dependent faults across #import: every file of the cluster is valid on its own
     let ctx_kind = match ctx_mode {
         Some(faulty) => Some(ctx::CtxKind::pick(rng, faulty)),
         None if rng.chance(1, 4) => {
@@ -1252,7 +1303,13 @@ fn gen_case(rng: &mut Rng, want_faults: usize, ctx_mode: Option<bool>) -> (Case,
         for f in sc.faults {
             faults.push(Fault { kind: f.kind, file: f.file, stage: "op-check".into(), alt: f.alt });
         }
-        ctx_features = sc.features;
+        ctx_features.extend(sc.features);
+        if op_files.iter().any(|(_, t)| t.contains("from \"../ops/") || t.contains("from \"./sub/../") || t.contains("from \"./././") || t.lines().any(|l| l.trim_start().starts_with("#import") && !l.contains("from \"."))) {
+            ctx_features.push("ctx-import-path-spelled-differently".to_string());
+        }
+        if op_files.iter().any(|(_, t)| t.lines().filter(|l| l.trim_start().starts_with("#import")).count() >= 2) {
+            ctx_features.push("ctx-two-import-lines-in-one-file".to_string());
+        }
         if ctx_mode.is_some() {
             cmds = match rng.below(4) {
                 0 => vec!["check"],
